@@ -26,11 +26,14 @@ CHECK = {
         "geometries); all other families are also navigated",
     ],
     "bounds": {"quick": {"ray_lattice": "4^3 start points x 16 directions", "max_crossings": 1000,
-                         "builder_product": "13 leaves x 7 object transforms x 15 placements x 3 tolerances x 2 label styles + 12x12x3 boolean pairs"},
-               "thorough": {"ray_lattice": "8^3 start points x 30 directions", "max_crossings": 1000,
-                            "builder_product": "13 leaves x 10 object transforms x 15 placements x 3 tolerances x 2 label styles + 12x12x3 boolean pairs"}},
+                         "builder_product": "13 leaves x 7 object transforms x 15 placements x 3 tolerances x 2 label styles + 12x12x3 boolean pairs",
+                         "solid_programs": "1-in-5 hash selection of C09's quick zoo"},
+               "thorough": {"ray_lattice": "6^3 start points x 30 directions (4^3 x 16 for family sp)", "max_crossings": 1000,
+                            "builder_product": "13 leaves x 10 object transforms x 15 placements x 3 tolerances x 2 label styles + 12x12x3 boolean pairs",
+                            "solid_programs": "all of C09's thorough zoo; navigation on 2 programs per structure class and shard"}},
     "parts": [
         {"name": "roundtrip", "harness": "c19_json_roundtrip", "flavour": "rel",
+         "cflags": ["-DC19_USE_SOLID_PROGRAMS=1"],   # third input family: C09's problems/solid_programs.hh
          "shards": {"quick": 16, "thorough": 16}, "deadline": {"quick": 120, "thorough": 1100}},
     ],
 }
